@@ -3,21 +3,22 @@ import LunarVerif.Proofs.C02
 # C02 — Concurrency quotas bound in-flight requests and always free their slots
 
 Property theorems only (helpers live in `Proofs/C02.lean`).  The model is `Model/C02.lean`, the observable
-property `Spec/C02.lean`.
+property `Spec/C02.lean`.  The model describes the code WITH the repairs F04e/F02c, F02a, F02b, F02d, F02e; no
+part of the property is excluded any more.
 
 * `Reach cfg s`: `s` is reachable by ANY finite sequence of the code's critical sections (set add under the
-  state mutex, set remove, status write, status delete, `reqIDToQuota` set/pop, clock) with ANY arguments —
+  state mutex, set remove, status write, status delete, `reqIDToQuota` append/pop, clock) with ANY arguments —
   every interleaving of every number of concurrent `Inc` / `Allowed` / `Dec` / GC / drop executions is such a
   sequence, so the `Reach` theorems hold for all schedules.
 * `run cfg (S.init cfg) events` / `final …`: event histories (request, response, proxy error, clock advance with
   GC ticks), each event run to completion as the engine does; every such state is `Reach` (`run_reach`).
-* Three parts of the property are violated by the unchanged code; each is stated as `…_partial` with the
-  decidable class of `Spec/C02.lean` as explicit hypothesis, next to a `…_violation_witness`:
-  F02a (`errLeaky`: proxy error releases only the first quota touched), F02b (`gcCrowded`: a GC tick over
-  three or more members skips expired ones), F02c (`respLeaky` / `reqRisk`: only the last
-  `QuotaProcessorDec` of a filter's system flow is wired).
 -/
 namespace LunarVerif.C02
+
+/-- The invariant at the end of every history. -/
+theorem inv_history (cfg : Cfg) (hwf : cfg.wf = true) (events : List Event) :
+    Inv cfg (final cfg (S.init cfg) events) :=
+  inv_final cfg hwf events _ _ (Inv.init cfg) (Tracks.init cfg)
 
 /-! ## (i) the bound -/
 
@@ -42,11 +43,11 @@ theorem members_le_max_run (cfg : Cfg) (events : List Event) (q : Nat) :
 theorem admitted_holds_slot (cfg : Cfg) (hwf : cfg.wf = true) (events : List Event) (r : Nat) (post : Bool)
     (h : (reqEvent cfg (final cfg (S.init cfg) events) r post).2 = .admitted) (q : Nat) (hq : q ∈ cfg.concPath) :
     holdsSlot r ((reqEvent cfg (final cfg (S.init cfg) events) r post).1.members q) = true :=
-  admitted_holds cfg hwf _ r post (inv0_final cfg hwf events _ (Inv0.init cfg)).jq h q hq
+  admitted_holds cfg hwf _ r post (inv_history cfg hwf events).jq h q hq
 
 theorem one_slot_per_transaction (cfg : Cfg) (hwf : cfg.wf = true) (events : List Event) (q : Nat) :
     (((final cfg (S.init cfg) events).members q).map (·.req)).Nodup :=
-  ((inv0_final cfg hwf events _ (Inv0.init cfg)).jq q).reqs_nodup
+  ((inv_history cfg hwf events).jq q).reqs_nodup
 
 /-! ## (ii) released exactly once -/
 
@@ -58,82 +59,36 @@ theorem released_at_most_once (cfg : Cfg) (s : S) (h : Reach cfg s) (q : Nat) (m
   have := accounted_reach cfg s h q m
   exact ⟨this, by omega⟩
 
-/-- Response: exactly `r`'s members leave, from every concurrent quota, everything else stays — unless `r` holds
-    a slot the wired `QuotaProcessorDec` does not reach (F02c). -/
-theorem released_on_response_partial (cfg : Cfg) (hwf : cfg.wf = true) (events : List Event) (r : Nat)
-    (hclass : respLeaky cfg (final cfg (S.init cfg) events).members r = false)
+/-- Response: exactly `r`'s members leave, from every concurrent quota; everything else stays, in order. -/
+theorem released_on_response (cfg : Cfg) (hwf : cfg.wf = true) (events : List Event) (r : Nat)
     (q : Nat) (hc : cfg.isConc q = true) :
     (respEvent cfg (final cfg (S.init cfg) events) r).members q =
       others r ((final cfg (S.init cfg) events).members q) ∧
     holdsSlot r ((respEvent cfg (final cfg (S.init cfg) events) r).members q) = false := by
-  have h := endFlows_exact cfg hwf _ r (inv0_final cfg hwf events _ (Inv0.init cfg)).jq hclass q hc
+  have h := endFlows_exact cfg hwf _ r (inv_history cfg hwf events).jq q hc
   exact ⟨h, holds_eq_of_mem_others r _ _ h⟩
 
-/-- two independent concurrent quotas (max 1) on one filter, both limited by the flow -/
-def exCC : Cfg := ⟨[⟨.conc, 1, 21, none⟩, ⟨.conc, 1, 21, none⟩], [0, 1], false, 0, 10⟩
-
-/-- F02c: r1 admitted, its response arrives, yet q0 still holds r1's slot and the probe r2 is refused. -/
-theorem released_on_response_violation_witness :
-    ∃ (cfg : Cfg) (events : List Event) (r q : Nat), cfg.wf = true ∧ cfg.isConc q = true ∧
-      holdsSlot r ((respEvent cfg (final cfg (S.init cfg) events) r).members q) = true ∧
-      (reqEvent cfg (respEvent cfg (final cfg (S.init cfg) events) r) 2 false).2 = .refused :=
-  ⟨exCC, [.req 1 false], 1, 0, by decide⟩
-
-/-- Early answer / refusal by the gateway: `r` holds no slot afterwards — in the simple set-ups (one limiter on a
-    concurrent quota whose ancestors are all the concurrent quotas there are; F02c otherwise). -/
-theorem released_on_early_response_partial (cfg : Cfg) (hwf : cfg.wf = true) (events : List Event)
+/-- Early answer / refusal by the gateway: `r` holds no slot afterwards, in any concurrent quota. -/
+theorem released_on_early_response (cfg : Cfg) (hwf : cfg.wf = true) (events : List Event)
     (r : Nat) (post : Bool)
-    (hclass : reqRisk cfg (final cfg (S.init cfg) events).members r = false)
     (hv : (reqEvent cfg (final cfg (S.init cfg) events) r post).2 = .refused ∨
           (reqEvent cfg (final cfg (S.init cfg) events) r post).2 = .early)
     (q : Nat) (hc : cfg.isConc q = true) :
     holdsSlot r ((reqEvent cfg (final cfg (S.init cfg) events) r post).1.members q) = false := by
-  have hI := inv0_final cfg hwf events _ (Inv0.init cfg)
-  simp only [reqRisk, Bool.or_eq_false_iff, Bool.not_eq_false'] at hclass
+  have hI := inv_history cfg hwf events
   rw [reqEvent_released cfg _ r post hv]
-  refine released_simple cfg hwf _ r hI.jq (hI.rmft r) hclass.1 hclass.2 ?_ q hc
-  intro q'
-  have hM : JQ (incPhase cfg (final cfg (S.init cfg) events) r).1 q' :=
-    (hI.jq q').inc (incPhase_rel cfg hwf _ r q').1
-  exact hM.dec (((drop_rel cfg hwf _ r q').1).trans (endFlows_rel cfg hwf _ r q').1)
+  have hJD : ∀ q', JQ (drop cfg (incPhase cfg (final cfg (S.init cfg) events) r).1 r) q' := fun q' =>
+    ((hI.jq q').inc (incPhase_rel cfg hwf _ r q').1).dec (drop_rel cfg hwf _ r q').1
+  exact holds_eq_of_mem_others r _ _ (endFlows_exact cfg hwf _ r hJD q hc)
 
-/-- fixed companion, then two concurrent quotas, all limited; the flow answers POST itself -/
-def exFCC : Cfg := ⟨[⟨.fixed, 0, 0, none⟩, ⟨.conc, 1, 21, none⟩, ⟨.conc, 1, 21, none⟩], [0, 1, 2], true, 0, 10⟩
-
-/-- F02c (early answer): the flow answers r1 itself after all limiters admitted it; q1 keeps r1's slot. -/
-theorem released_on_early_response_violation_witness :
-    ∃ (cfg : Cfg) (r q : Nat), cfg.wf = true ∧ cfg.isConc q = true ∧
-      (reqEvent cfg (S.init cfg) r true).2 = .early ∧
-      holdsSlot r ((reqEvent cfg (S.init cfg) r true).1.members q) = true :=
-  ⟨exFCC, 1, 1, by decide⟩
-
-/-- Proxy error (`Stream.OnError`): exactly `r`'s members leave, from every concurrent quota — unless `r` holds a
-    slot outside the chain of the first quota it touched (F02a).  `hprev`: no Spec condition failed earlier in
-    the history. -/
-theorem released_on_proxy_error_partial (cfg : Cfg) (hwf : cfg.wf = true) (events : List Event) (r : Nat)
-    (hprev : judge cfg (run cfg (S.init cfg) events) = none)
-    (hclass : errLeaky cfg (final cfg (S.init cfg) events).members r = false)
+/-- Proxy error (`Stream.OnError`): exactly `r`'s members leave, from every concurrent quota. -/
+theorem released_on_proxy_error (cfg : Cfg) (hwf : cfg.wf = true) (events : List Event) (r : Nat)
     (q : Nat) (hc : cfg.isConc q = true) :
     (errEvent cfg (final cfg (S.init cfg) events) r).members q =
       others r ((final cfg (S.init cfg) events).members q) ∧
     holdsSlot r ((errEvent cfg (final cfg (S.init cfg) events) r).members q) = false := by
-  have hI := inv_of_judge_none cfg hwf events _ _ (Inv.init cfg) (Tracks.init cfg) hprev
-  have h := drop_exact cfg hwf _ r hI hclass q hc
+  have h := drop_exact cfg hwf _ r (inv_history cfg hwf events) q hc
   exact ⟨h, holds_eq_of_mem_others r _ _ h⟩
-
-/-- flow `Limiter(fixed q0) → Limiter(concurrent q1, max 1)` -/
-def exFC : Cfg := ⟨[⟨.fixed, 0, 0, none⟩, ⟨.conc, 1, 21, none⟩], [0, 1], false, 0, 10⟩
-/-- the same quotas, limiters in the other order -/
-def exCF : Cfg := ⟨[⟨.fixed, 0, 0, none⟩, ⟨.conc, 1, 21, none⟩], [1, 0], false, 0, 10⟩
-
-/-- F02a: r1 admitted, `OnError(r1)`: only the fixed quota is remembered for r1, the concurrent slot stays taken and
-    the probe r2 is refused (order [F, C]); with order [C, F] the slot is freed and the probe admitted. -/
-theorem released_on_proxy_error_violation_witness :
-    (holdsSlot 1 ((final exFC (S.init exFC) [.req 1 false, .err 1]).members 1) = true ∧
-     (reqEvent exFC (final exFC (S.init exFC) [.req 1 false, .err 1]) 2 false).2 = .refused) ∧
-    (holdsSlot 1 ((final exCF (S.init exCF) [.req 1 false, .err 1]).members 1) = false ∧
-     (reqEvent exCF (final exCF (S.init exCF) [.req 1 false, .err 1]) 2 false).2 = .admitted) := by
-  decide
 
 /-- GC: a clock advance that passes `k + 1` GC instants (the last at `nextGC + k·gc`) removes only members whose
     expiry is at or before that instant, and keeps the order of the others. -/
@@ -145,33 +100,19 @@ theorem gc_removes_only_expired (cfg : Cfg) (hwf : cfg.wf = true) (events : List
     ∀ m ∈ (final cfg (S.init cfg) events).members q,
       m ∈ (advance cfg (final cfg (S.init cfg) events) d).members q ∨
       m.expiry ≤ (final cfg (S.init cfg) events).nextGC + k * cfg.gc := by
-  have hI := inv0_final cfg hwf events _ (Inv0.init cfg)
-  have h := (tickN_spec cfg k _ hI.jq).2.1 q
+  have h := (tickN_spec cfg k _ (inv_history cfg hwf events).jq).2.1 q
   simp only [advance, hk]
   exact ⟨h.sub, h.exp⟩
 
-/-- GC: after the first GC instant at or after its expiry a member is gone — when the set holds at most two
-    members at that time (F02b otherwise). -/
-theorem released_by_gc_after_expiry_partial (cfg : Cfg) (hwf : cfg.wf = true) (events : List Event) (d k : Nat)
+/-- GC: after the first GC instant at or after its expiry a member is gone, whatever the size of the set. -/
+theorem released_by_gc_after_expiry (cfg : Cfg) (hwf : cfg.wf = true) (events : List Event) (d k : Nat)
     (hk : dueCount (final cfg (S.init cfg) events).nextGC cfg.gc ((final cfg (S.init cfg) events).now + d) = k + 1)
-    (q : Nat) (hc : cfg.isConc q = true)
-    (hclass : ((final cfg (S.init cfg) events).members q).length ≤ 2) :
+    (q : Nat) (hc : cfg.isConc q = true) :
     ∀ m ∈ (advance cfg (final cfg (S.init cfg) events) d).members q,
       (final cfg (S.init cfg) events).nextGC + k * cfg.gc < m.expiry := by
-  have hI := inv0_final cfg hwf events _ (Inv0.init cfg)
-  have h := (tickN_spec cfg k _ hI.jq).2.2.2.2 q hc hclass
+  have h := (tickN_spec cfg k _ (inv_history cfg hwf events).jq).2.2.2.2 q hc
   simp only [advance, hk]
   exact h
-
-/-- one concurrent quota, max 3, expiry 11, GC every 10 -/
-def ex3 : Cfg := ⟨[⟨.conc, 3, 11, none⟩], [0], false, 0, 10⟩
-
-/-- F02b: three admitted transactions nobody answers (expiry 11); the GC instant 20 passes, yet r2's member is still
-    there (the loop ranged over the array `SRem` was shifting), and goes only at the next instant 30. -/
-theorem released_by_gc_violation_witness :
-    (final ex3 (S.init ex3) [.req 1 false, .req 2 false, .req 3 false, .adv 20]).members 0 = [⟨11, 2⟩] ∧
-    (final ex3 (S.init ex3) [.req 1 false, .req 2 false, .req 3 false, .adv 20, .adv 10]).members 0 = [] := by
-  decide
 
 /-! ## (iii) no lasting exhaustion -/
 
@@ -186,6 +127,14 @@ theorem quiescent_probe_admitted (cfg : Cfg) (hwf : cfg.wf = true) (events : Lis
   have := hroom q hq
   omega
 
+/-! ## The connection: the Spec holds of every model run -/
+
+/-- For every well-formed configuration and every event history the observable history of the model satisfies the
+    whole property `Spec.holds` — the very predicate the judge evaluates on the implementation's answers. -/
+theorem c02_holds (cfg : Cfg) (hwf : cfg.wf = true) (events : List Event) :
+    holds cfg (run cfg (S.init cfg) events) = true :=
+  holds_run cfg hwf events _ _ (Inv.init cfg) (Tracks.init cfg)
+
 /-- On ANY observed history that satisfies the Spec — the model's or the implementation's — once every transaction
     has ended (none is open: each one's last event is a response, a proxy error, a refusal or an early answer)
     every concurrent quota's set is empty. -/
@@ -199,10 +148,9 @@ theorem quiescent_sets_empty (cfg : Cfg) (obs : List Obs) (h : holds cfg obs = t
   rw [hended m.req] at this
   cases this
 
-/-- (iii) for model histories: no event in a defect class, every transaction ended, every consulted quota has
-    `max > 0` — then a fresh probe is not refused. -/
+/-- (iii) for every model history: every transaction ended, every consulted quota has `max > 0` — then a fresh
+    probe is not refused. -/
 theorem quiescent_history_probe_admitted (cfg : Cfg) (hwf : cfg.wf = true) (events : List Event)
-    (hclean : clean cfg (run cfg (S.init cfg) events) = true)
     (hended : ∀ r, lastOpen r (run cfg (S.init cfg) events) false = false)
     (hmax : ∀ q ∈ cfg.concPath, 0 < cfg.max q) (r : Nat) (post : Bool) :
     (reqEvent cfg (final cfg (S.init cfg) events) r post).2 ≠ .refused := by
@@ -211,36 +159,30 @@ theorem quiescent_history_probe_admitted (cfg : Cfg) (hwf : cfg.wf = true) (even
   have hc : cfg.isConc q = true := by
     obtain ⟨q0, _, hc0, hq'⟩ := mem_concPath cfg q (List.contains_iff_mem.mpr hq)
     exact (wf_chain cfg hwf q0 hc0).2 q hq'
-  have hholds := holds_of_judge cfg _ _ (judge_run cfg hwf events _ _ (Inv.init cfg) (Tracks.init cfg)) hclean
-  have := quiescent_sets_empty cfg _ hholds hended q hc
+  have := quiescent_sets_empty cfg _ (c02_holds cfg hwf events) hended q hc
   rw [lastSnap_run cfg events _ _ rfl] at this
   rw [this]
   exact hmax q hq
 
-/-! ## The connection: the judge predicate holds of every model run -/
-
-/-- For every well-formed configuration and every event history, the first event (if any) whose observation fails a
-    condition of `Spec/C02.lean` lies in one of the three known-defect classes: the judge never reports an
-    unclassified failure on the model.  (`judge = none`: all conditions hold; `some (some F)`: first failure is in
-    class `F`; `some none` would be an unclassified failure.) -/
-theorem c02_judge (cfg : Cfg) (hwf : cfg.wf = true) (events : List Event) :
-    judge cfg (run cfg (S.init cfg) events) ≠ some none :=
-  judge_run cfg hwf events _ _ (Inv.init cfg) (Tracks.init cfg)
-
-/-- Hence: on histories none of whose events falls in a defect class the whole property holds. -/
-theorem c02_holds_partial (cfg : Cfg) (hwf : cfg.wf = true) (events : List Event)
-    (hclean : clean cfg (run cfg (S.init cfg) events) = true) :
-    holds cfg (run cfg (S.init cfg) events) = true :=
-  holds_of_judge cfg _ _ (c02_judge cfg hwf events) hclean
-
-/-! ### Non-vacuity -/
+/-! ### Non-vacuity (and the former violation witnesses, now regressions) -/
 
 /-- one concurrent quota (max 1, expiry 11 incl. the dead-request delta, GC every 10); the flow answers POST -/
 def exC : Cfg := ⟨[⟨.conc, 1, 11, none⟩], [0], true, 0, 10⟩
 /-- child limiter (max 2) with a concurrent parent (max 1) -/
 def exPC : Cfg := ⟨[⟨.conc, 1, 21, none⟩, ⟨.conc, 2, 21, some 0⟩], [1], true, 0, 10⟩
+/-- flow `Limiter(fixed q0) → Limiter(concurrent q1, max 1)` (F02a's set-up) -/
+def exFC : Cfg := ⟨[⟨.fixed, 0, 0, none⟩, ⟨.conc, 1, 21, none⟩], [0, 1], false, 0, 10⟩
+/-- two independent concurrent quotas (max 1) on one filter, both limited by the flow (F02c's set-up) -/
+def exCC : Cfg := ⟨[⟨.conc, 1, 21, none⟩, ⟨.conc, 1, 21, none⟩], [0, 1], false, 0, 10⟩
+/-- fixed companion, then two concurrent quotas, all limited; the flow answers POST itself -/
+def exFCC : Cfg := ⟨[⟨.fixed, 0, 0, none⟩, ⟨.conc, 1, 21, none⟩, ⟨.conc, 1, 21, none⟩], [0, 1, 2], true, 0, 10⟩
+/-- one concurrent quota, max 3, expiry 11, GC every 10 (F02b's set-up) -/
+def ex3 : Cfg := ⟨[⟨.conc, 3, 11, none⟩], [0], false, 0, 10⟩
+/-- child expires before its parent (F02d's set-up) -/
+def exGap : Cfg := ⟨[⟨.conc, 1, 31, none⟩, ⟨.conc, 1, 11, some 0⟩], [1], false, 0, 10⟩
 
-example : exC.wf = true ∧ exPC.wf = true ∧ exFC.wf = true ∧ exCC.wf = true ∧ ex3.wf = true := by decide
+example : exC.wf = true ∧ exPC.wf = true ∧ exFC.wf = true ∧ exCC.wf = true ∧ exFCC.wf = true ∧ ex3.wf = true ∧
+    exGap.wf = true := by decide
 
 /-- The bound is reached and enforced: r1 admitted, r2 refused, the set holds one member. -/
 example : (run exC (S.init exC) [.req 1 false, .req 2 false]).map (·.verdict) = [.admitted, .refused] ∧
@@ -251,52 +193,46 @@ example : (final exC (S.init exC) [.req 1 false, .resp 1]).adds 0 ⟨11, 1⟩ = 
     (final exC (S.init exC) [.req 1 false, .resp 1]).rems 0 ⟨11, 1⟩ = 1 ∧
     (final exC (S.init exC) [.req 1 false, .resp 1]).members 0 = [] := by decide
 
-/-- `released_on_response_partial`: hypotheses hold with `r` really holding slots (child and parent). -/
-example : respLeaky exPC (final exPC (S.init exPC) [.req 1 false]).members 1 = false ∧
-    holdsSlot 1 ((final exPC (S.init exPC) [.req 1 false]).members 0) = true ∧
-    holdsSlot 1 ((final exPC (S.init exPC) [.req 1 false]).members 1) = true := by decide
+/-- `released_on_response`: `r` really holds slots (child and parent) before; (former F02c witness) with two
+    concurrent quotas on one filter the response now frees both and the probe is admitted. -/
+example : holdsSlot 1 ((final exPC (S.init exPC) [.req 1 false]).members 0) = true ∧
+    holdsSlot 1 ((final exPC (S.init exPC) [.req 1 false]).members 1) = true ∧
+    (final exCC (S.init exCC) [.req 1 false, .resp 1]).members 0 = [] ∧
+    (reqEvent exCC (final exCC (S.init exCC) [.req 1 false, .resp 1]) 2 false).2 = .admitted := by decide
 
-/-- `released_on_early_response_partial`: a held transaction is answered early by the flow; also a refusal by the
-    parent after the child admitted. -/
-example : reqRisk exC (final exC (S.init exC) [.req 1 false]).members 1 = false ∧
-    (reqEvent exC (final exC (S.init exC) [.req 1 false]) 1 true).2 = .early ∧
+/-- `released_on_early_response`: a held transaction answered early by the flow; a refusal by the parent after the
+    child admitted; (former F02c-early witness) nothing stays in q1. -/
+example : (reqEvent exC (final exC (S.init exC) [.req 1 false]) 1 true).2 = .early ∧
     holdsSlot 1 ((final exC (S.init exC) [.req 1 false]).members 0) = true ∧
-    reqRisk exPC (final exPC (S.init exPC) [.req 1 false]).members 2 = false ∧
-    (reqEvent exPC (final exPC (S.init exPC) [.req 1 false]) 2 false).2 = .refused := by decide
+    (reqEvent exPC (final exPC (S.init exPC) [.req 1 false]) 2 false).2 = .refused ∧
+    (reqEvent exFCC (S.init exFCC) 1 true).2 = .early ∧
+    (reqEvent exFCC (S.init exFCC) 1 true).1.members 1 = [] := by decide
 
-/-- `released_on_proxy_error_partial`: clean history, not in the class, slot held before the error. -/
-example : judge exCF (run exCF (S.init exCF) [.req 1 false]) = none ∧
-    errLeaky exCF (final exCF (S.init exCF) [.req 1 false]).members 1 = false ∧
-    holdsSlot 1 ((final exCF (S.init exCF) [.req 1 false]).members 1) = true := by decide
+/-- `released_on_proxy_error`: (former F02a witness) with the fixed quota touched first the proxy error now frees the
+    concurrent slot and the probe is admitted; (former F02d case) the child's member expired and was collected, the
+    parent's is still there, the proxy error frees it. -/
+example : holdsSlot 1 ((final exFC (S.init exFC) [.req 1 false]).members 1) = true ∧
+    (final exFC (S.init exFC) [.req 1 false, .err 1]).members 1 = [] ∧
+    (reqEvent exFC (final exFC (S.init exFC) [.req 1 false, .err 1]) 2 false).2 = .admitted ∧
+    (final exGap (S.init exGap) [.req 1 false, .adv 20]).members 1 = [] ∧
+    holdsSlot 1 ((final exGap (S.init exGap) [.req 1 false, .adv 20]).members 0) = true ∧
+    (final exGap (S.init exGap) [.req 1 false, .adv 20, .err 1]).members 0 = [] := by decide
 
-/-- GC theorems: two expired members, one GC instant passed (`dueCount = 1`), both are removed. -/
-def ex2 : Cfg := ⟨[⟨.conc, 2, 11, none⟩], [0], false, 0, 10⟩
-example : dueCount (final ex2 (S.init ex2) [.req 1 false, .req 2 false, .adv 5]).nextGC ex2.gc
-      ((final ex2 (S.init ex2) [.req 1 false, .req 2 false, .adv 5]).now + 15) = 1 + 1 ∧
-    ((final ex2 (S.init ex2) [.req 1 false, .req 2 false, .adv 5]).members 0).length = 2 ∧
-    (advance ex2 (final ex2 (S.init ex2) [.req 1 false, .req 2 false, .adv 5]) 15).members 0 = [] := by decide
+/-- GC theorems: (former F02b witness) three expired members, one GC instant passed (`dueCount = 1 + 1` ticks at 10
+    and 20): all three are removed at once. -/
+example : dueCount (final ex3 (S.init ex3) [.req 1 false, .req 2 false, .req 3 false]).nextGC ex3.gc
+      ((final ex3 (S.init ex3) [.req 1 false, .req 2 false, .req 3 false]).now + 20) = 1 + 1 ∧
+    ((final ex3 (S.init ex3) [.req 1 false, .req 2 false, .req 3 false]).members 0).length = 3 ∧
+    (final ex3 (S.init ex3) [.req 1 false, .req 2 false, .req 3 false, .adv 20]).members 0 = [] := by decide
 
 /-- `quiescent_probe_admitted`: after request, response the set has room and the probe is admitted. -/
 example : (reqEvent exC (final exC (S.init exC) [.req 1 false, .resp 1]) 2 false).2 = .admitted := by decide
 
 /-- `quiescent_sets_empty` / `quiescent_history_probe_admitted`: a history in which four transactions end in the four
-    ways (response, early answer, proxy error, refusal) and none is left open. -/
-example : clean exC (run exC (S.init exC) [.req 1 false, .req 2 false, .resp 1, .req 2 true, .req 3 false, .err 3]) = true ∧
-    (∀ r ∈ [1, 2, 3, 4], lastOpen r (run exC (S.init exC)
+    ways (response, early answer, proxy error, refusal) and none is left open; before the last event one is open. -/
+example : (∀ r ∈ [1, 2, 3, 4], lastOpen r (run exC (S.init exC)
       [.req 1 false, .req 2 false, .resp 1, .req 2 true, .req 3 false, .err 3]) false = false) ∧
     lastOpen 3 (run exC (S.init exC) [.req 1 false, .req 2 false, .resp 1, .req 2 true, .req 3 false]) false = true := by
   decide
-
-/-- `c02_judge` / `c02_holds_partial`: a clean non-trivial history (admit, refuse, respond, early answer, proxy error,
-    expiry + GC) on which the whole Spec holds; and the three witnesses are classified, not unclassified. -/
-example : clean exC (run exC (S.init exC)
-      [.req 1 false, .req 2 false, .resp 1, .req 2 true, .req 3 false, .err 3, .req 4 false, .adv 25, .req 5 false]) = true ∧
-    holds exC (run exC (S.init exC)
-      [.req 1 false, .req 2 false, .resp 1, .req 2 true, .req 3 false, .err 3, .req 4 false, .adv 25, .req 5 false]) = true := by
-  decide
-
-example : judge exFC (run exFC (S.init exFC) [.req 1 false, .err 1]) = some (some .F02a) ∧
-    judge ex3 (run ex3 (S.init ex3) [.req 1 false, .req 2 false, .req 3 false, .adv 20]) = some (some .F02b) ∧
-    judge exCC (run exCC (S.init exCC) [.req 1 false, .resp 1]) = some (some .F02c) := by decide
 
 end LunarVerif.C02
